@@ -1,5 +1,5 @@
 import Liquid.Std
-import Proofs.MapPermJson
+import Proofs.MapPermSort
 /-!
 # C02 — rendering is deterministic across runs, re-parses, engines and entry points
 
@@ -182,46 +182,35 @@ example : OutRespectM true stdOut := stdOut_respectsM
 
 The standard output layer (`stdOut_respectsM`: `fmt.Sprint` sorts the keys of a map), the standard
 comparisons (`opEq_prep_mp`, `opLt_prep_mp`, `opContains_prep_mp`, `equal_mp`: `equalMaps` is a conjunction
-over all entries, `mapValue.Contains` a key lookup) and every standard filter except `sort`, `sort_natural`
-and `uniq` (`filterRespectsM_std2`: `Convert(·, []any)` of a map sorts the entries, `Convert(·, string)`
-prints them sorted, `json`/`inspect` sort the members of an object by key text — `marshal_jrel` — and `type`
-names types) respect `MP` up to `unmodelled`: the entries of a map are *printed* and *compared* in the order of
-the entry list, so which part of a value leaves the model first — and with an early exit, whether it is
-reached at all — depends on that order; the answers inside the model are the same. -/
+over all entries, `mapValue.Contains` a key lookup) and every standard filter (`filterRespectsM_all`:
+`Convert(·, []any)` of a map sorts the entries, `Convert(·, string)` prints them sorted; `json`/`inspect` sort
+the members of an object by key text — `marshal_jrel`; `type` names types; `sort`/`sort_natural` order by
+`values.Less` / the printed text and make the same comparisons on both runs — `insertionSortM_mp`,
+`mergeSort_mp`; `uniq` identifies elements by their canonical encoding — `canonOrder_mp`) respect `MP` up to
+`unmodelled`: the entries of a map are *printed* and *compared* in the order of the entry list, so which part
+of a value leaves the model first — and with an early exit, whether it is reached at all — depends on that
+order; the answers inside the model are the same. -/
 
-/-- **C02 for the standard configuration** (partial). `allowed` says which filters are registered on the
-engine (`stdPrimsOnly allowed`; with `fun _ => true` it is `stdPrims`). Rendering any template against
-environments whose bindings differ in the order of map entries at any depth (`MP`) gives results that
-agree (`RunAgree true`: the same output or the same error, or one of the two runs is outside the model).
+/-- **C02 for the standard configuration: rendering does not depend on the order of map entries anywhere in
+the bindings.** Every template (all tags, all 48 filters, every comparison), every configuration, file system
+and include depth: rendering against environments whose bindings differ in the order of the entries of maps, at
+any depth (`MP`: maps whose keys are booleans, numbers or strings, pairwise distinct and of the map's key type),
+gives results that agree (`RunAgree true`: the same output or the same error, or one of the two runs is outside
+the model). "Agree" rather than "equal" is forced by the model, not by the code: see the paragraph above — the
+statement for equal results holds for every value layer that respects `MP` exactly
+(`run_map_order_independent`). -/
+theorem run_std_map_order_independent (cfg : Cfg) (fs : FS) (fuel : Nat) (src : Bytes) (line : Nat) (env env' : Env)
+    (he : ∀ x, MP (env.get x) (env'.get x)) :
+    RunAgree true (run stdPrims stdOut cfg fs fuel src line env) (run stdPrims stdOut cfg fs fuel src line env') :=
+  run_mp _ _ cfg fs fuel stdPrims_respectsM stdOut_respectsM src line he
 
-Full statement wanted: the same for `stdPrims` (every filter registered). What is missing:
-* `hopen` — for `sort`, `sort_natural` and `uniq`, when registered, `FilterRespectsM` has to be supplied: their
-  bodies are not shown to respect `MP` here. (`sort`/`sort_natural` order by `values.Less` / the printed text, which
-  `lessTL_mp` / `sprint_mp` show independent of the entry order, but the insertion sort over a partial comparator,
-  the homogeneity test and the tie check are not transported. `uniq` identifies elements by `MapOrder.canonEnc`,
-  the encoding with every map in canonical order; that this is the same for related elements is not proved.)
-* "agree" instead of "equal": see the paragraph above. -/
-theorem run_std_map_order_independent_partial (allowed : Bytes → Bool)
-    (hopen : ∀ n, n ∈ sortFiltersM → allowed n = true → FilterRespectsM n)
+/-- the same for an engine on which only some of the standard filters are registered -/
+theorem run_std_map_order_independent_only (allowed : Bytes → Bool)
     (cfg : Cfg) (fs : FS) (fuel : Nat) (src : Bytes) (line : Nat) (env env' : Env)
     (he : ∀ x, MP (env.get x) (env'.get x)) :
     RunAgree true (run (stdPrimsOnly allowed) stdOut cfg fs fuel src line env)
       (run (stdPrimsOnly allowed) stdOut cfg fs fuel src line env') :=
-  run_mp _ _ cfg fs fuel (stdPrimsOnly_respectsM2 allowed hopen) stdOut_respectsM src line he
-
-/-- **C02 for the standard engine without `sort`, `sort_natural`, `uniq`**: no hypothesis left. Every template
-(all tags, the other 45 filters — `json`, `inspect` and `type` among them —, every comparison), every file system
-and include depth: environments that differ in the order of the entries of maps, at any depth, render to
-agreeing results. -/
-theorem run_std_map_order_independent_without_sorts (cfg : Cfg) (fs : FS) (fuel : Nat) (src : Bytes) (line : Nat) (env env' : Env)
-    (he : ∀ x, MP (env.get x) (env'.get x)) :
-    RunAgree true (run (stdPrimsOnly withoutSortsM) stdOut cfg fs fuel src line env)
-      (run (stdPrimsOnly withoutSortsM) stdOut cfg fs fuel src line env') :=
-  run_std_map_order_independent_partial withoutSortsM
-    (fun n hn ha => by
-      simp [withoutSortsM] at ha
-      exact absurd hn ha)
-    cfg fs fuel src line env env' he
+  run_mp _ _ cfg fs fuel (stdPrimsOnly_respectsM allowed (fun n _ _ => filterRespectsM_all n)) stdOut_respectsM src line he
 
 /-- the hypothesis on the environments, on the map with the keys `1`, `1.0`, `int64(1)`, `"1"`, `true` nested in an
     array, bound to `a`, in two orders -/
@@ -238,6 +227,18 @@ example : ∀ y, MP (Env.get [([97], .slice .any [.map .any .any MapOrder.exA, .
   · have : ([97] == y) = false := by simp [Ne.symm h]
     simp [Env.get, List.find?, this, MP.refl]
 
-/-- filters outside `sortFiltersM` satisfy their hypothesis: `join`, `json` -/
-example : FilterRespectsM (ArrF.bn "join") := filterRespectsM_std2 _ (by decide +kernel)
-example : FilterRespectsM (JsonF.bn "json") := filterRespectsM_std2 _ (by decide +kernel)
+/-- … and the conclusion on it: the template `{% for p in m %}{{ p[1] }}{% endfor %}{{ m | json }}` (any template)
+    renders alike against the two orders of the map -/
+example (src : Bytes) :
+    RunAgree true (run stdPrims stdOut {} (fsOfList []) 8 src 0 [([109], .map .any .any MapOrder.exA)])
+      (run stdPrims stdOut {} (fsOfList []) 8 src 0 [([109], .map .any .any MapOrder.exB)]) :=
+  run_std_map_order_independent _ _ _ _ _ _ _ (by
+    intro y
+    by_cases h : y = [109]
+    · subst h
+      exact binding_related_of_perm .any .any (by simp) MapOrder.exA_keysOK (fun _ _ => rfl)
+        (by intro kv h; simp only [MapOrder.exA, List.mem_cons, List.mem_nil_iff, or_false] at h
+            rcases h with rfl | rfl | rfl | rfl | rfl <;> rfl)
+        MapOrder.exB_perm_exA.symm
+    · have : ([109] == y) = false := by simp [Ne.symm h]
+      simp [Env.get, List.find?, this, MP.refl])
